@@ -259,6 +259,53 @@ func checkIdentityTable(p *Program, r *Report, rule string, table map[string]ide
 			r.Undecided(rule, key+":writes", p.Pos(k.Pos()), "no output writes at the loop's time index recognised")
 			continue
 		}
+		// every iteration writes every output the identities speak about (a skipped write leaves the zero
+		// value in place and breaks the identity for that timestep)
+		if len(loops) == 1 {
+			l := loops[0]
+			var latches []*ssa.BasicBlock
+			for _, pr := range l.Header.Preds {
+				if l.Blocks[pr] {
+					latches = append(latches, pr)
+				}
+			}
+			for oi := range writes {
+				hasW := map[*ssa.BasicBlock]bool{}
+				for _, c := range callsIn(k) {
+					nm := callName(c.Common())
+					if (nm == "Set" || nm == "Set1") && atLoopIndex(c) {
+						if o2, ok := outIdx[origin1(recvOf(c.Common()))]; ok && o2 == oi {
+							hasW[c.Block()] = true
+						}
+					}
+				}
+				// body entry: successor of the header inside the loop
+				skipped := false
+				for _, s0 := range l.Header.Succs {
+					if !l.Blocks[s0] {
+						continue
+					}
+					if hasW[s0] {
+						continue
+					}
+					reach := reachable(s0, func(from *ssa.BasicBlock, i int) bool {
+						nb := from.Succs[i]
+						return hasW[nb] || !l.Blocks[nb] || nb == l.Header
+					})
+					for _, la := range latches {
+						if reach[la] && !hasW[la] {
+							skipped = true
+						}
+					}
+				}
+				okey := fmt.Sprintf("%s:out%d:every-step", key, oi)
+				if skipped {
+					r.Fail(rule, okey, p.Pos(k.Pos()), fmt.Sprintf("%s (%s): some path through a timestep does not write output `%s`: it keeps its zero value for that step and the identity fails there", m.Name, spec.note, m.Outputs[oi]))
+				} else {
+					r.OK(rule, fmt.Sprintf("%s: output `%s` is written on every path through a timestep", key, m.Outputs[oi]))
+				}
+			}
+		}
 		// per-output expectations
 		for oi, alts := range spec.outs {
 			ws := writes[oi]
